@@ -471,11 +471,15 @@ func (l *layer) Verify(tocDigest digest.Digest) (err error) {
 	if l.isClosed() {
 		return fmt.Errorf("layer is already closed")
 	}
-	if l.r != nil {
-		return nil
+	// Always check the passed digest, also when this layer object already has a
+	// reader: the object is shared through the resolver cache and an earlier user
+	// may have skipped verification or verified it against another digest.
+	r, err := l.verifiableReader.VerifyTOC(tocDigest)
+	if err != nil {
+		return err
 	}
-	l.r, err = l.verifiableReader.VerifyTOC(tocDigest)
-	return
+	l.r = r
+	return nil
 }
 
 func (l *layer) SkipVerify() {
